@@ -23,6 +23,30 @@ CHECKS = {
     },
 }
 
+CHECKS["C05"] = {
+    "engine": "stategraph",
+    "technique": "explicit-state shortest-path search over the complete stabilizer state graph (all states, n<=6) and its LC-class quotient; witness traces replayed through the implementation",
+    "text": "The universally quantified competitor circuits are decided exactly: the minimum two-qubit count for (n, connectivity, class) is the "
+            "0/1-weighted shortest-path distance from |0..0> in the explicitly enumerated graph of ALL stabilizer states (15..4922775 states, "
+            "local gates free, CZ on coupled pairs cost 1), computed on the full graph and again by BFS on the class quotient. It is compared with the "
+            "two-qubit count of the circuits the three APIs actually deliver for the witness' end state, for all 5962 (configuration, class) pairs. "
+            "Each optimum comes with a witness circuit that is re-simulated, edge-checked and pushed through Stabilizer(circuit) and the library classifier.",
+    "note": "Trusted: the gate rules (re-derived from matrices each run), the C enumerator (cross-checked state-for-state against the Python model on n<=5 and a residue class of n=6; "
+            "rebuilt and compared with scipy components in the thorough tier). Assumes CX/CZ/SWAP(=3) are the only two-qubit gates, as the property states. "
+            "570 six-qubit table entries are genuinely suboptimal and are listed in known_findings.jsonl.",
+    "design_ref": "5 (C05), 6",
+}
+CHECKS["C06"] = {
+    "engine": "stategraph+conform",
+    "technique": "explicit enumeration of all stabilizer groups; connected components of the state graph under single-qubit gates as oracle; classifier run on every state",
+    "text": "The partition of stabilizer groups induced by the library's class id is compared with the partition into connected components of the explicitly "
+            "enumerated state graph under H_q,S_q (local-Clifford equivalence by definition): constant on components, injective across, ids exactly 0..K-1. "
+            "Quick: all groups for n<=5, and for n=6 all 32768 graph states + 64 members of each of the 760 components + a residue class (about 125k states); "
+            "thorough: ALL 4922775 six-qubit groups. Presentations (all generating sets n<=3, one-move neighbourhood beyond) and sign vectors are varied.",
+    "note": "Trusted: gate rules (checked against matrices), C enumerator (cross-checked against the Python model; components recomputed with scipy in thorough).",
+    "design_ref": "5 (C06)",
+}
+
 NOT_YET = "check not built yet (work in progress in this session; planned as model checking, see DESIGN.md section 5)"
 
 
